@@ -61,7 +61,8 @@ Proof.
     destruct (lease (mems s m)); try discriminate. destruct (won (mems s m)); try discriminate.
     inversion H; cbn; apply upd_other; assumption.
   - assert (j <> m) by (intros Hjm; apply N; left; symmetry; exact Hjm).
-    destruct (lease (mems s m)) as [| |id e|]; try discriminate. destruct (ka_start (mems s m)); try discriminate.
+    destruct (lease (mems s m)) as [| |id e|]; try discriminate; [|inversion H; reflexivity].
+    destruct (ka_start (mems s m)); try discriminate.
     destruct (leases s id) as [[e' ttl]|].
     + match type of H with (if ?c then _ else _) = _ => destruct c end; inversion H; cbn; apply upd_other; assumption.
     + inversion H; cbn; apply upd_other; assumption.
